@@ -281,6 +281,81 @@ func runAggregationLarge(raw json.RawMessage, seed int64) (res Result) {
 		}
 		sks, scal, sigs = append(sks, sk), append(scal, s), append(sigs, sg)
 	}
+	// middle-sized lists (around 8, 16, 32, 64 entries: where an implementation may switch to a bulk strategy) that contain identity
+	// encodings, opposite pairs and repeated entries at chosen positions: the sum does not care what the neighbours are
+	{
+		idSig := crypto.Signature(ref.G1Inf.Compress())
+		idKey := w.PK(map[string]int{}, int(seed))
+		for _, n := range []int{7, 8, 9, 15, 16, 17, 18, 31, 32, 33, 40, 63, 64, 65} {
+			for _, shape := range []string{"id@0", "id@1", "id@mid", "id@last", "ids@1,2", "id-everywhere-but-0", "opp@1,2", "opp@0,last", "dup@1,2", "id@1+opp@3,4"} {
+				sum := new(big.Int)
+				lsg := make([]crypto.Signature, n)
+				lpk := make([]crypto.PublicKey, n)
+				put := func(i, k int, sign int) { // entry i := sign * pool element k (sign 0: the identity)
+					switch sign {
+					case 0:
+						lsg[i], lpk[i] = idSig, idKey
+					case 1:
+						lsg[i], lpk[i] = sigs[k], sks[k].PublicKey()
+						sum.Add(sum, scal[k])
+					default:
+						neg := new(big.Int).Sub(ref.R, scal[k])
+						lsg[i], lpk[i] = H.Mul(neg).Compress(), w.SK(neg).PublicKey()
+						sum.Add(sum, neg)
+					}
+				}
+				for i := 0; i < n; i++ {
+					put(i, (i*7+int(seed))%pool, 1)
+				}
+				reput := func(i, k, sign int) {
+					sum.Sub(sum, scal[(i*7+int(seed))%pool])
+					put(i, k, sign)
+				}
+				switch shape {
+				case "id@0":
+					reput(0, 0, 0)
+				case "id@1":
+					reput(1, 0, 0)
+				case "id@mid":
+					reput(n/2, 0, 0)
+				case "id@last":
+					reput(n-1, 0, 0)
+				case "ids@1,2":
+					reput(1, 0, 0)
+					reput(2, 0, 0)
+				case "id-everywhere-but-0":
+					for i := 1; i < n; i++ {
+						reput(i, 0, 0)
+					}
+				case "opp@1,2":
+					reput(1, 3, 1)
+					reput(2, 3, -1)
+				case "opp@0,last":
+					reput(0, 4, 1)
+					reput(n-1, 4, -1)
+				case "dup@1,2":
+					reput(1, 5, 1)
+					reput(2, 5, 1)
+				default:
+					reput(1, 0, 0)
+					reput(3, 6, 1)
+					reput(4, 6, -1)
+				}
+				sum.Mod(sum, ref.R)
+				res.Evals += 2
+				wantSig := H.Mul(sum).Compress()
+				if got, err := crypto.AggregateBLSSignatures(lsg); err != nil || !bytes.Equal(got, wantSig) {
+					add("SignatureHomomorphism", fmt.Sprintf("AggregateBLSSignatures of %d signatures (%s): %x (err %v), the reference sum is %x", n, shape, []byte(got), err, wantSig))
+				}
+				if n%8 != 1 && shape != "id@1" && shape != "opp@1,2" { // the key side on a third of the sizes: reference G2 multiplications are the cost
+					continue
+				}
+				if got, err := crypto.AggregateBLSPublicKeys(lpk); err != nil || !bytes.Equal(got.Encode(), w.G2Bytes(sum)) {
+					add("PublicKeyHomomorphism", fmt.Sprintf("AggregateBLSPublicKeys of %d keys (%s) differs from the reference sum (err %v)", n, shape, err))
+				}
+			}
+		}
+	}
 	for _, n := range sizes {
 		sum := new(big.Int)
 		lsk := make([]crypto.PrivateKey, n)
